@@ -19,6 +19,11 @@ PROPS = {
             ('geo-types', 'c18.rs', r'^c18_k_(rect_|conv_|geometry_roundtrip)', 'complete', 'quick'),
             ('geo-types', 'c18.rs', r'^c18_k_(close|polygon_new|exterior_mut|try_exterior_mut|exterior_frame|interiors_mut|try_interiors_mut|interiors_push|history2)', 'bounded', 'quick'),
         ],
+        # harness -> the only failed check it may report (a documented rejecting panic of the code under test)
+        'allowed_panics': {
+            'c18_k_rect_set_min_total': 'RECT_INVALID_BOUNDS_ERROR',
+            'c18_k_rect_set_max_total': 'RECT_INVALID_BOUNDS_ERROR',
+        },
         'twins': {
             'C18.V.close': r'^c18_k_close',
             'C18.V.is_closed': r'^c18_k_close',
